@@ -17,7 +17,8 @@ def describe(tier):
         "from_array(to_array()); observations get/items/to_dict(force=True), common_rowids. Each transition runs the real method on an object rebuilt from the state "
         "key and compares to_array(dtype=int) and an independent reader with the NumPy model; operands byte-identical; copies share no storage. "
         "From every state additionally: read through every reader (slices1d, to_array, items, to_dict, common_rowids, abscissae, sparsity, a count cube), change the SAME object in place "
-        "(shift_common every way, append, single-cell update) and read through every reader again - anything the index memoises must follow the change. "
+        "(shift_common every way, append, single-cell update) and read through every reader again - anything the index memoises must follow the change. Beyond the graph: update / union_update / difference_update with the row ids given as list, tuple / range, int64, int32, strided, reversed-view and read-only arrays "
+        "over every row subset of two small indexes; and indexes of 128 / 129 / 300 / 1025 columns and 20 000 / 70 000 rows through shift_common, filtered, append, reindexed, update, sliced, slices1d, collapsed and column_stack once each. "
         "Violating transitions are reported and not expanded." % (b["R"], b.get("R1", b["R"]), b["C"], b["prec_max"]),
         "assumptions": [
             ("thorough tier: states with more than 4 cells are expanded only while their values stay inside {0,1,2} (every transition into a state outside that bound is still checked); "
@@ -28,8 +29,14 @@ def describe(tier):
     }
 
 
+def extras(res, tier):
+    from .. import bigops
+
+    return bigops.family(res, tier, "C06")
+
+
 def main(tier, all_violations=False, t0=None):
-    return histprop.run(__import__("vf.props.c06", fromlist=["x"]), tier, all_violations, t0)
+    return histprop.run(__import__("vf.props.c06", fromlist=["x"]), tier, all_violations, t0, extra=extras)
 
 
 def replay(case, site=None):
